@@ -144,11 +144,17 @@ Definition cpn_step (st : style) (anon_for_dupe_key : bool) (s : names_t * N) (c
         | None =>
             match d_exprlabel c with
             | None =>
-                let rep := nmem names (d_anon_name c) in
+                (* dupe_name = c._anon_name_label in names;
+                   repeated = dupe_name and hash(names[c._anon_name_label]) == hash(c) *)
+                let dupe_name := nmem names (d_anon_name c) in
+                let rep := match dget nm_eqb names (d_anon_name c) with
+                           | Some h => N.eqb h (d_hash c)
+                           | None => false
+                           end in
                 let names := dset nm_eqb (d_anon_name c) (d_hash c) names in
-                if rep then
+                if dupe_name then
                   (names, (dh + 1)%N, None, None,
-                   anon (if tq then dedupe_anon_tq c dh else dedupe_anon c dh), true)
+                   anon (if tq then dedupe_anon_tq c dh else dedupe_anon c dh), rep)
                 else (names, dh, None, None, anon (d_anon_name c), false)
             | Some e => (names, dh, Some (e, false), Some (e, false), Some (e, false), false)
             end
@@ -414,7 +420,8 @@ Definition keymap_of (rw : list mrec) (n : nat) (translate : bool) : keymap :=
   let km :=
     if negb (Nat.eqb n 0) then
       let by_key := by_key_of rw in
-      if negb (Nat.eqb (length by_key) n) then
+      (* len(by_key) != num_ctx_cols or len(by_key) != len(raw) *)
+      if negb (Nat.eqb (length by_key) n) || negb (Nat.eqb (length by_key) (length rw)) then
         let dupes := dupes_of rw in
         let km := dict_of key_eqb (obj_entries rw dupes) in
         let by_key := dupdate key_eqb by_key (map (fun k => (k, amb_rec k)) dupes) in
